@@ -284,6 +284,10 @@ func replacement(repl string, old interface{}) (interface{}, bool) {
 		return map[string]interface{}{}, true
 	case "deep_nesting":
 		return json.RawMessage(strings.Repeat("[", 5000) + strings.Repeat("]", 5000)), true
+	case "deep_list_bad_leaf":
+		return json.RawMessage(strings.Repeat("[", 48) + `""` + strings.Repeat("]", 48)), true
+	case "deep_object_bad_leaf":
+		return json.RawMessage(strings.Repeat(`{"uri":`, 48) + `null` + strings.Repeat("}", 48)), true
 	case "other_type":
 		if s, ok := old.(string); ok && (s == "create" || s == "update" || s == "recover" || s == "deactivate") {
 			return map[string]string{"create": "deactivate", "update": "create", "recover": "update", "deactivate": "recover"}[s], true
